@@ -205,38 +205,40 @@ def run_fft(case, seed, R):
 # non-square physical consistency is the business of C03 / C05
 
 def run_wrappers(case, seed, R):
-    n, N, dxo_rel, sh, wvl, efl, dxi = case['n'], case['N'], case['dxo_rel'], case['shift'], case['wvl'], case['efl'], case['dxi']
-    native = wvl * efl / (n * dxi)
-    dxo = native / dxo_rel            # dxo_rel == Q
+    n, N, q, sh, wvl, efl, dxi = tuple(case['n']), tuple(case['N']), case['dxo_rel'], case['shift'], case['wvl'], case['efl'], case['dxi']
+    # physical sampling: one dx per plane; the textbook sum then has a per-axis Q = wvl*efl/(n_axis*dxi*dxo)
+    dxo = wvl * efl / (n[0] * dxi) / q            # q == Q along axis 0
+    Qf = tuple(wvl * efl / (na * dxi * dxo) for na in n)
     shift_units = (sh[0] * dxo, sh[1] * dxo)
     eps = np.finfo(float).eps
-    x = dense((n, n), seed, 9)
+    x = dense(n, seed, 9)
+    sq = 'square' if n[0] == n[1] else 'nonsquare'
     for method in ('mdft', 'czt'):
         reset_executors(64)
-        # focus: pupil (n,n) dx=dxi -> focal (N,N) dx=dxo
-        sig = f'focus_fixed_sampling:{method}:{shape_class((n, n), (N, N))}:{shift_class(sh)}'
-        ref = ref_dft.dft2(x, dxo_rel, (N, N), sh, True)
-        got = R.call(propagation.focus_fixed_sampling, x.copy(), dxi, efl, wvl, dxo, N, shift=shift_units, method=method)
+        # focus: pupil n, dx=dxi -> focal N, dx=dxo
+        sig = f'focus_fixed_sampling:{method}:{shape_class(n, N)}:{shift_class(sh)}'
+        ref = ref_dft.dft2(x, Qf, N, sh, True)
+        got = R.call(propagation.focus_fixed_sampling, x.copy(), dxi, efl, wvl, dxo, N if N[0] != N[1] else N[0], shift=shift_units, method=method)
         _cmp_phase(R, got, ref, any(sh), K_TOL * eps * 10, sig)
         w = Wavefront(x.copy(), wvl, dxi, 'pupil')
-        out = R.call(w.focus_fixed_sampling, efl, dxo, (N, N), shift=shift_units, method=method)
+        out = R.call(w.focus_fixed_sampling, efl, dxo, N, shift=shift_units, method=method)
         if out is not FAILED:
             _cmp_phase(R, out.data, ref, any(sh), K_TOL * eps * 10, 'Wavefront.' + sig)
             R.expect(out.dx == dxo and out.space == 'psf', 'Wavefront.focus_fixed_sampling:meta', 'dx/space of result')
-        # unfocus: focal (N,N) dx=dxo -> pupil (n,n) dx=dxi ; 1/(N Q') = dxi*dxo/(wvl*efl)
-        X = dense((N, N), seed, 11)
-        Qp = wvl * efl / (N * dxo * dxi)
+        # unfocus: focal N, dx=dxo -> pupil n, dx=dxi ; 1/(N_axis Q'_axis) = dxi*dxo/(wvl*efl)
+        X = dense(N, seed, 11)
+        Qp = tuple(wvl * efl / (Na * dxo * dxi) for Na in N)
         shp = (sh[0] * dxi, sh[1] * dxi)
-        ref = ref_dft.dft2(X, Qp, (n, n), sh, False)
-        sig = f'unfocus_fixed_sampling:{method}:{shape_class((N, N), (n, n))}:{shift_class(sh)}'
-        got = R.call(propagation.unfocus_fixed_sampling, X.copy(), dxo, efl, wvl, dxi, n, shift=shp, method=method)
+        ref = ref_dft.dft2(X, Qp, n, sh, False)
+        sig = f'unfocus_fixed_sampling:{method}:{shape_class(N, n)}:{shift_class(sh)}'
+        got = R.call(propagation.unfocus_fixed_sampling, X.copy(), dxo, efl, wvl, dxi, n if n[0] != n[1] else n[0], shift=shp, method=method)
         _cmp_phase(R, got, ref, any(sh), K_TOL * eps * 10, sig)
         w = Wavefront(X.copy(), wvl, dxo, 'psf')
-        out = R.call(w.unfocus_fixed_sampling, efl, dxi, (n, n), shift=shp, method=method)
+        out = R.call(w.unfocus_fixed_sampling, efl, dxi, n, shift=shp, method=method)
         if out is not FAILED:
             _cmp_phase(R, out.data, ref, any(sh), K_TOL * eps * 10, 'Wavefront.' + sig)
-    R.nontrivial(n > 1)
-    R.outcome('wrappers')
+    R.nontrivial(n != (1, 1))
+    R.outcome('wrappers:' + sq)
 
 
 def _cmp_phase(R, got, ref, shifted, tol, sig):
@@ -371,9 +373,12 @@ def plan(tier, seed):
                     eng_cases.append({'in': si, 'out': so, 'Q': q, 'shift': sh})
     Bf = 6 if tier == 'quick' else 9
     fft_cases = [{'in': [a, b], 'Q': Q} for a in range(1, Bf + 1) for b in range(1, Bf + 1) for Q in (1, 2, 3, 1.5, 2.5)]
-    wr_cases = [{'n': n, 'N': N, 'dxo_rel': q, 'shift': sh, 'wvl': wvl, 'efl': efl, 'dxi': dxi}
-                for n in range(1, B + 2) for N in range(1, B + 3) for q in (1.0, 2.0, 1.37)
-                for sh in ([0, 0], [1, 0], [0, -1.5]) for (wvl, efl, dxi) in ((0.5, 100.0, 0.1), (1.0, 37.5, 0.25))]
+    Bw = 4 if tier == 'quick' else 6
+    wr_cases = [{'n': [n0, n1], 'N': [N0, N1], 'dxo_rel': q, 'shift': sh, 'wvl': wvl, 'efl': efl, 'dxi': dxi}
+                for n0 in range(1, Bw + 1) for n1 in range(1, Bw + 1) for N0 in range(1, Bw + 2) for N1 in range(1, Bw + 2)
+                for q in (1.0, 2.0, 1.37)
+                for sh in ([0, 0], [1, 0], [0, -1.5]) for (wvl, efl, dxi) in ((0.5, 100.0, 0.1), (1.0, 37.5, 0.25))
+                if tier != 'quick' or (n0 + n1 + N0 + N1 + int(q * 100) + int(sh[0]) + int(wvl * 2)) % 3 == 0 or max(n0, n1, N0, N1) <= 2]
     depth = 4 if tier == 'quick' else 5
     return [
         ScopeUnit('engines', eng_cases, run_engines,
@@ -383,7 +388,7 @@ def plan(tier, seed):
         ScopeUnit('fft_route', fft_cases, run_fft,
                   f'every input shape in [1..{Bf}]^2 x Q in {{1,1.5,2,2.5,3}}: focus / unfocus operator matrices vs the textbook sum on the padded grid (per-axis Q = padded/unpadded), vs mdft and czt on that grid, Wavefront.focus/unfocus, both precisions'),
         ScopeUnit('wrappers', wr_cases, run_wrappers,
-                  'square pupils n x n -> N x N, 3 sampling ratios, 3 shifts, 2 (wavelength, efl, dx) unit sets: focus_fixed_sampling / unfocus_fixed_sampling and the Wavefront methods vs the textbook sum with Q and shift converted by hand'),
+                  f'pupils (n0,n1) in [1..{Bw}]^2 (square and non-square) -> focal (N0,N1) in [1..{Bw + 1}]^2, 3 sampling ratios, 3 shifts, 2 (wavelength, efl, dx) unit sets' + (' (quick: every third cell of the product by index arithmetic, all cells with axes <= 2)' if tier == 'quick' else '') + ': focus_fixed_sampling / unfocus_fixed_sampling and the Wavefront methods vs the textbook sum whose per-axis Q = wvl*efl/(n_axis*dx_in*dx_out) and shift/dx_out are computed by hand (one physical dx per plane)'),
         HistoryUnit('executor_history', [{'prec': 64}], h_fresh, h_events, h_apply, h_check, h_canon, depth,
                     f'BFS to depth {depth} over events {EVENTS} on the shared module-level mdft / czt executors and config.precision; the call events are built to collide in the cache keys (Q=2 vs 2.0 vs tuple, samples int vs tuple, shift 0 vs (0,0), same geometry other direction, same key other precision, same key other input dtype); canonical state = (precision, cache keys with cached dtypes); invariant in every state: the call equals, bit for bit and in dtype, the same call on a fresh executor under the current precision, and equals the textbook sum'),
     ]
